@@ -91,16 +91,21 @@ def lift(src, spec):
         if toks[i].text != '|':
             raise Lost('no closure after anchor %r' % spec['anchor'])
         j = i + 1
-        params, cur = [], []
-        while toks[j].text != '|':
-            if toks[j].text == ',':
-                params.append(''.join(cur)); cur = []
-            else:
-                cur.append(toks[j].text if toks[j].text != ':' else ': ')
+        params, start = [], None
+        depth = 0
+        pstart = j
+        while not (toks[j].text == '|' and depth == 0):
+            if toks[j].kind == 'punct' and toks[j].text in ('(', '['):
+                depth += 1
+            elif toks[j].kind == 'punct' and toks[j].text in (')', ']'):
+                depth -= 1
+            elif toks[j].text == ',' and depth == 0:
+                params.append(src[toks[pstart].pos:toks[j - 1].end]); pstart = j + 1
             j += 1
-        if cur:
-            params.append(''.join(cur))
-        names = [q.split(':')[0].strip() for q in params]
+        if j > pstart:
+            params.append(src[toks[pstart].pos:toks[j - 1].end])
+        # drop a type ascription on a plain identifier parameter (`t: &TimeSpec`), keep patterns as they are
+        names = [re.sub(r'^(\w+)\s*:.*$', r'\1', q.strip()) for q in params]
         b = j + 1
         e = _expr_end(toks, pair, b)
         return dict(params=names, body=src[toks[b].pos:toks[e - 1].end], line=rustlex.line_of(src, toks[b].pos))
@@ -113,15 +118,26 @@ def gen_lifted(src, cfg):
         l = lift(src, sp)
         sig = sp['sig']
         m = re.match(r'\((.*)\)\s*(->\s*(.*))?$', sig)
-        sig_params = [x.strip() for x in m.group(1).split(',') if x.strip()]
+        sig_params, depth, cur = [], 0, ''
+        for ch in m.group(1):
+            if ch in '([<':
+                depth += 1
+            elif ch in ')]>':
+                depth -= 1
+            if ch == ',' and depth == 0:
+                sig_params.append(cur.strip()); cur = ''
+            else:
+                cur += ch
+        if cur.strip():
+            sig_params.append(cur.strip())
         sig_names = [x.split(':')[0].strip() for x in sig_params]
         bind = ''
         if l['params']:
             if len(l['params']) != len(sig_names):
                 raise Lost('closure %s takes %d parameters, expected %d' % (sp['name'], len(l['params']), len(sig_names)))
-            ren = [(a, b) for a, b in zip(l['params'], sig_names) if a != b]
-            if ren:
-                bind = 'let (%s) = (%s); ' % (', '.join(a for a, _ in ren) + ',', ', '.join(b for _, b in ren) + ',')
+            for a, b in zip(l['params'], sig_names):
+                if a != b:
+                    bind += 'let %s = %s; ' % (a, b)
         out.append('    // lifted verbatim from %s:%d (%s)\n    #[allow(unused_parens, unused_variables)]\n    fn %s%s {\n        %s%s\n    }\n'
                    % (cfg['file'], l['line'], sp['kind'], sp['name'], sig, bind, l['body']))
     return '\n'.join(out)
